@@ -693,6 +693,17 @@ class Explorer:
             if ck == "ToVoid":
                 return TOP
             v = self.V(f, fid, c[0], st)
+            if ck == "PointerToIntegral" and v[0] == "ptr" and len(v[2]) == 1:
+                # address = base address of the object (one symbol per object) + position
+                x = v[2][0]
+                base = "&%s" % (v[1],)
+                if base not in self.syms:
+                    self.syms[base] = (1 << 12, 1 << 46)
+                lx = to_lin(INT(x)) if isinstance(x, int) else to_lin(x)
+                if lx is not None:
+                    t = dict(lx[1])
+                    t[base] = t.get(base, 0) + 1
+                    return mk_lin(lx[0], t)
             if ck == "IntegralCast" and v[0] == "int":
                 return self._wrap(v[1], n.get("ct") or n.get("t"))
             if ck == "IntegralCast" and v[0] == "lin":
@@ -786,6 +797,10 @@ class Explorer:
                     eq = self._ptr_eq(a, b)
                     if eq is not None:
                         return INT(1 if (eq == (op == "==")) else 0)
+                if a[0] == "ptr" and b[0] == "ptr" and a[1] == b[1] and len(a[2]) == len(b[2]) and a[2] and \
+                        a[2][:-1] == b[2][:-1] and isinstance(a[2][-1], int) and isinstance(b[2][-1], int):
+                    # two pointers into the same array: compare the positions
+                    return INT(1 if CMPS[op](a[2][-1], b[2][-1]) else 0)
                 return TOP
             if op in ("+", "-") and a[0] == "ptr" and b[0] == "int" and a[2] and isinstance(a[2][-1], int):
                 return PTR(a[1], a[2][:-1] + (a[2][-1] + (b[1] if op == "+" else -b[1]),))
@@ -916,6 +931,8 @@ class Explorer:
             return self.sym("and%d@%s:%d" % (self._fresh, f.name, f.lineof(i)), 0, mask)
         if a[0] != "lin" and b[0] != "lin":
             return None
+        if a[0] == "ptr" or b[0] == "ptr":
+            return None         # pointer arithmetic is handled by the caller
         la, lb = to_lin(a), to_lin(b)
         if la is None or lb is None:
             return TOP if op not in CMPS else None
